@@ -3,7 +3,7 @@
    "valid choices" of the round-trip theorem, and with it the fact that none of
    the decoder's int32 computations can overflow on such a stream. *)
 From Coq Require Import ZArith List Bool Lia.
-From Verif Require Import gen.Shorten C13.Model C13.Bits C13.Block C13.Stream.
+From Verif Require Import gen.Shorten C13.Model C13.Bits C13.Block C13.Stream C13.Extras.
 Import ListNotations.
 Open Scope Z_scope.
 
@@ -211,106 +211,122 @@ Proof.
 Qed.
 
 (* ------------------------------------------------------------------ *)
-(** * Running means stay within the sample range *)
+(** * The encoder accepts valid items: generic in the bounds *)
 
-Section Means.
-Variable h : hdr.
+Section Gen.
+(* Bv bounds the unfixed samples and the history, Bo the running means and
+   coffset, Q the total magnitude of the LPC coefficients, X shift the unfixed
+   samples at a given bit shift *)
+Variables (Bv Bo Q SH : Z) (X : Z -> Z).
+Variables (sok zok : Z -> Z -> Prop).
+Variable p : params.
+Let h := hdr_of p.
+
+Hypothesis HBv : 0 <= Bv <= Bo.
+Hypothesis H8 : 8 * Bo < 2147483648.
+Hypothesis HQ0 : 0 <= Q < 2147483648.
+Hypothesis HQ : Q * (Bv + Bo) + 32 + (Bv + Bo) < 2147483648.
+Hypothesis HSH : 0 <= SH <= 32.
+Hypothesis HX : forall shift, 0 <= shift < SH -> 0 <= X shift <= Bv /\ X shift * 2 ^ shift <= Bo.
+Hypothesis Hsok : forall shift s, 0 <= shift < SH -> sok shift s ->
+  exists v, unfix_sample (p_ftype p) shift s = Some v /\ fix_sample (p_ftype p) shift v = Some s
+            /\ bnd (X shift) v.
+Hypothesis Hzok : forall shift s, zok shift s -> unfix_sample (p_ftype p) shift s = Some 0.
 
 Lemma coffset_bnd shift off :
-  0 <= shift -> Forall (bnd B16) off -> bnd B16 (coffset_of h shift off).
+  0 <= shift -> Forall (bnd Bo) off -> bnd Bo (coffset_of h shift off).
 Proof.
   intros Hs Ho. unfold coffset_of. destruct (0 <? h_nmean h) eqn:En.
   - apply Z.ltb_lt in En.
     set (l := firstn (Z.to_nat (h_nmean h)) off).
-    assert (Hl : Forall (bnd B16) l) by (now apply Forall_firstn).
-    pose proof (sumZ_bnd B16 l ltac:(unfold B16; lia) Hl) as Hsum.
+    assert (Hl : Forall (bnd Bo) l) by (now apply Forall_firstn).
+    pose proof (sumZ_bnd Bo l ltac:(lia) Hl) as Hsum.
     assert (Ll : Z.of_nat (length l) <= h_nmean h).
     { unfold l. rewrite firstn_length. lia. }
-    assert (Ha : bnd (h_nmean h * B16) (sumZ l)).
-    { eapply bnd_weaken; [|exact Hsum]. unfold B16. nia. }
-    assert (Q : forall r, 0 <= r < h_nmean h -> bnd B16 (Z.quot (r + sumZ l) (h_nmean h))).
-    { intros r Hr. apply quot_mean_bnd; auto. unfold B16; lia. }
+    assert (Ha : bnd (h_nmean h * Bo) (sumZ l)).
+    { eapply bnd_weaken; [|exact Hsum]. nia. }
+    assert (Qm : forall r, 0 <= r < h_nmean h -> bnd Bo (Z.quot (r + sumZ l) (h_nmean h))).
+    { intros r Hr. apply quot_mean_bnd; auto. lia. }
     destruct (h_version h <? 2).
-    + apply (Q 0). lia.
-    + apply shiftr_bnd; [lia|unfold B16; lia|]. apply Q. lia.
-  - apply nth_bnd; [unfold B16; lia|exact Ho].
+    + apply (Qm 0). lia.
+    + apply shiftr_bnd; [lia|lia|]. apply Qm. lia.
+  - apply nth_bnd; [lia|exact Ho].
 Qed.
 
 Lemma mean_update_total bs shift off blk :
-  0 < bs -> 0 <= shift -> Z.of_nat (length blk) = bs ->
-  Forall (bnd (B16 / 2 ^ shift)) blk -> Forall (bnd B16) off ->
-  exists off', mean_update h bs shift off blk = Some off' /\ Forall (bnd B16) off'.
+  0 < bs -> 0 <= shift < SH -> Z.of_nat (length blk) = bs ->
+  Forall (bnd (X shift)) blk -> Forall (bnd Bo) off ->
+  exists off', mean_update h bs shift off blk = Some off' /\ Forall (bnd Bo) off'.
 Proof.
   intros Hb Hs Hl Hblk Ho. unfold mean_update.
   destruct (0 <? h_nmean h); [|exists off; auto].
   replace (bs =? 0) with false by (symmetry; apply Z.eqb_neq; lia).
   assert (P : 0 < 2 ^ shift) by (apply Z.pow_pos_nonneg; lia).
-  set (X := B16 / 2 ^ shift) in *.
-  assert (HX : 0 <= X) by (apply Z.div_pos; unfold B16; lia).
-  assert (HXB : X * 2 ^ shift <= B16) by (pose proof (Z.mul_div_le B16 (2 ^ shift) P); unfold X; lia).
-  assert (HXB' : X <= B16) by nia.
-  pose proof (sumZ_bnd X blk HX Hblk) as Hsum. rewrite Hl in Hsum.
-  assert (Q : forall r, 0 <= r < bs -> bnd X (Z.quot (r + sumZ blk) bs)).
+  destruct (HX shift Hs) as [[HX0 HXv] HXB].
+  set (Xs := X shift) in *.
+  assert (HXB' : Xs <= Bo) by lia.
+  pose proof (sumZ_bnd Xs blk HX0 Hblk) as Hsum. rewrite Hl in Hsum.
+  assert (Qm : forall r, 0 <= r < bs -> bnd Xs (Z.quot (r + sumZ blk) bs)).
   { intros r Hr. apply quot_mean_bnd; auto. }
   set (r := if h_version h <? 2 then 0 else bs / 2).
   assert (Hr : 0 <= r < bs) by (unfold r; destruct (h_version h <? 2); lia).
-  specialize (Q r Hr). set (m := Z.quot (r + sumZ blk) bs) in *.
-  assert (Bm : bnd B16 (if 2 <=? h_version h then m * 2 ^ shift else m)).
+  specialize (Qm r Hr). set (m := Z.quot (r + sumZ blk) bs) in *.
+  assert (Bm : bnd Bo (if 2 <=? h_version h then m * 2 ^ shift else m)).
   { unfold bnd in *. destruct (2 <=? h_version h); nia. }
-  rewrite (bnd_fits32 B16 _ ltac:(unfold B16; lia) Bm).
+  rewrite (bnd_fits32 Bo _ ltac:(lia) Bm).
   eexists. split; [reflexivity|]. apply Forall_app. split; [now apply Forall_skipn|].
   constructor; [exact Bm|constructor].
 Qed.
 
-End Means.
+Definition chan_ok (c : chan_st) : Prop := Forall (bnd Bv) (c_hist c) /\ Forall (bnd Bo) (c_off c).
 
-(* ------------------------------------------------------------------ *)
-(** * The encoder accepts valid items *)
-
-Definition chan_ok (c : chan_st) : Prop := Forall (bnd B16) (c_hist c) /\ Forall (bnd B16) (c_off c).
-
-Definition inv (p : params) (bs shift : Z) (chan : nat) (es : estate) : Prop :=
+Definition inv (bs shift : Z) (chan : nat) (es : estate) : Prop :=
   e_bs es = bs /\ e_shift es = shift /\ e_chan es = chan /\ Z.of_nat chan < p_nchan p
   /\ Z.of_nat (length (e_chans es)) = p_nchan p /\ Forall chan_ok (e_chans es).
 
-Lemma enc_block_total p es bs shift chan pr resn smp :
-  mem (p_ftype p) g_au_types = false ->
-  inv p bs shift chan es -> 0 <= shift < 32 -> 0 < bs ->
-  Z.of_nat (length smp) = bs -> 0 <= resn -> Forall (sample_ok shift) smp -> pred_ok p bs pr smp ->
-  exists code es', enc_block (hdr_of p) es pr resn smp = Some (code, es')
-                   /\ inv p bs shift (next_chan p chan) es'.
+Lemma unfix_all shift smp :
+  0 <= shift < SH -> Forall (sok shift) smp ->
+  exists vs, map_opt (unfix_sample (p_ftype p) shift) smp = Some vs
+             /\ map_opt (fix_sample (p_ftype p) shift) vs = Some smp
+             /\ Forall (bnd (X shift)) vs.
 Proof.
-  intros Hau (Ib & Is & Ic & Icn & Il & Ich) Hs Hbs Hlen Hresn Hsmp Hpr.
-  set (h := hdr_of p).
+  intros Hs. induction 1 as [|s smp Hs1 _ IH].
+  - exists []. repeat split; constructor.
+  - destruct IH as (vs & E1 & E2 & E3). destruct (Hsok shift s Hs Hs1) as (v & U & F & Bn).
+    exists (v :: vs). simpl. rewrite U, E1, F, E2. repeat split. now constructor.
+Qed.
+
+Lemma unfix_all_zero shift smp vs :
+  Forall (zok shift) smp -> map_opt (unfix_sample (p_ftype p) shift) smp = Some vs ->
+  forallb (Z.eqb 0) vs = true.
+Proof.
+  intros H. revert vs. induction H as [|s smp Hs _ IH]; intros vs E; simpl in E.
+  - now injection E as <-.
+  - rewrite (Hzok _ _ Hs) in E. destruct (map_opt _ smp) as [vs'|]; [|discriminate].
+    injection E as <-. simpl. now apply IH.
+Qed.
+
+Lemma enc_block_total es bs shift chan pr resn smp :
+  inv bs shift chan es -> 0 <= shift < SH -> 0 < bs ->
+  Z.of_nat (length smp) = bs -> 0 <= resn -> Forall (sok shift) smp -> gpred_ok zok Q p bs shift pr smp ->
+  exists code es', enc_block h es pr resn smp = Some (code, es')
+                   /\ inv bs shift (next_chan p chan) es'.
+Proof.
+  intros (Ib & Is & Ic & Icn & Il & Ich) Hs Hbs Hlen Hresn Hsmp Hpr.
   assert (Lc : (chan < length (e_chans es))%nat) by lia.
   destruct (nth_error (e_chans es) chan) as [c|] eqn:Hc; [|apply nth_error_None in Hc; lia].
   assert (Hcok : chan_ok c).
   { rewrite Forall_forall in Ich. apply Ich. eapply nth_error_In; eauto. }
   destruct Hcok as [Hh Ho].
-  set (g := fun s => s / 2 ^ shift).
-  set (vs := map g smp).
-  assert (S3 : Forall (fun s => unfix_sample (p_ftype p) shift s = Some (g s)
-                               /\ fix_sample (p_ftype p) shift (g s) = Some s
-                               /\ bnd (B16 / 2 ^ shift) (g s)) smp).
-  { eapply Forall_impl; [|exact Hsmp]. intros s Hs1. now apply sample_unfix. }
-  assert (Hun : map_opt (unfix_sample (p_ftype p) shift) smp = Some vs).
-  { apply map_opt_map. eapply Forall_impl; [|exact S3]. intros s H. apply H. }
-  assert (Hfix : map_opt (fix_sample (p_ftype p) shift) vs = Some smp).
-  { apply map_opt_map_inv. eapply Forall_impl; [|exact S3]. intros s H. apply H. }
-  assert (P : 0 < 2 ^ shift) by (apply Z.pow_pos_nonneg; lia).
-  assert (HXB : B16 / 2 ^ shift <= B16).
-  { apply Z.div_le_upper_bound; [lia|]. unfold B16. nia. }
-  assert (HX0 : 0 <= B16 / 2 ^ shift) by (apply Z.div_pos; unfold B16; lia).
-  assert (Hvx : Forall (bnd (B16 / 2 ^ shift)) vs).
-  { unfold vs. apply Forall_map. eapply Forall_impl; [|exact S3]. intros s H. apply H. }
-  assert (Hvb : Forall (bnd B16) vs) by (eapply Forall_bnd_weaken; eauto).
-  assert (Hvf : forallb fits32 vs = true) by (eapply Forall_bnd_fits32; [|exact Hvb]; unfold B16; lia).
-  assert (Lvs : length vs = length smp) by (unfold vs; apply map_length).
+  destruct (unfix_all shift smp Hs Hsmp) as (vs & Hun & Hfix & Hvx).
+  destruct (HX shift Hs) as [[HX0 HXv] HXB].
+  assert (Hvb : Forall (bnd Bv) vs) by (eapply Forall_bnd_weaken; eauto).
+  assert (Hvf : forallb fits32 vs = true) by (eapply Forall_bnd_fits32; [|exact Hvb]; lia).
+  assert (Lvs : length vs = length smp) by (eapply map_opt_length; eauto).
   set (co := coffset_of h shift (c_off c)).
-  assert (Hco : bnd B16 co) by (apply coffset_bnd; [lia|exact Ho]).
-  destruct (mean_update_total h bs shift (c_off c) (rev vs)) as (off' & Hm & Hoff');
+  assert (Hco : bnd Bo co) by (apply coffset_bnd; [lia|exact Ho]).
+  destruct (mean_update_total bs shift (c_off c) (rev vs)) as (off' & Hm & Hoff');
     [lia|lia|rewrite rev_length; lia|now apply Forall_rev|exact Ho|].
-  (* the code of the block *)
   assert (CODE : exists code,
              match pr with
              | PZero => if forallb (Z.eqb 0) vs then Some (uvar_put c_FNSIZE c_FN_ZERO) else None
@@ -324,7 +340,9 @@ Proof.
                end
              | PQlpc qs =>
                if (h_maxnlpc h <? Z.of_nat (length qs)) || negb (forallb fits32 qs)
-                  || negb ((Z.of_nat (Z.to_nat (nwrap_of h)) <=? bs) || (Z.of_nat (length qs) =? 0) || (co =? 0)) then None else
+                  || negb ((Z.of_nat (Z.to_nat (nwrap_of h)) <=? bs) || (Z.of_nat (length qs) =? 0) || (co =? 0))
+                  || negb (forallb fits32 (map (fun x => x - co) (firstn (length qs) (c_hist c))))
+                  || negb (forallb fits32 (map (fun x => x - co) vs)) then None else
                match resid (pred_qlpc (lpcqoffset_of h) qs)
                            (map (fun x => x - co) (c_hist c)) (map (fun x => x - co) vs) with
                | Some rs => if forallb fits32 rs then
@@ -335,38 +353,45 @@ Proof.
                end
              end = Some code).
   { destruct pr as [|k|qs]; simpl in Hpr.
-    - assert (Z0 : forallb (Z.eqb 0) vs = true).
-      { apply forallb_forall. intros x Hx. unfold vs in Hx. apply in_map_iff in Hx.
-        destruct Hx as (s & <- & Hin). rewrite Forall_forall in Hpr. rewrite (Hpr s Hin).
-        unfold g. now rewrite Z.div_0_l by lia. }
-      rewrite Z0. eauto.
+    - rewrite (unfix_all_zero shift smp vs Hpr Hun). eauto.
     - replace ((k <? 0) || (3 <? k)) with false by (symmetry; apply orb_false_iff; lia).
-      destruct (resid_total (fun bf => Some (pred_diff (cmd_of_diff k) co bf)) B16 (7 * B16)) with (vs := vs) (buf := c_hist c)
+      destruct (resid_total (fun bf => Some (pred_diff (cmd_of_diff k) co bf)) Bo (7 * Bo)) with (vs := vs) (buf := c_hist c)
         as (rs & Er & Br); auto.
-      { intros buf Hb. eexists. split; [reflexivity|]. apply pred_diff_bnd; auto. unfold B16; lia. }
-      rewrite Er. rewrite (Forall_bnd_fits32 (B16 + 7 * B16) rs); [eauto|unfold B16; lia|exact Br].
+      { intros buf Hb. eexists. split; [reflexivity|]. apply pred_diff_bnd; auto. lia. }
+      { eapply Forall_bnd_weaken; [|exact Hvb]. lia. }
+      { eapply Forall_bnd_weaken; [|exact Hh]. lia. }
+      rewrite Er. rewrite (Forall_bnd_fits32 (Bo + 7 * Bo) rs); [eauto|lia|exact Br].
     - destruct Hpr as (Hq1 & Hq2 & Hq3).
       replace (h_maxnlpc h <? Z.of_nat (length qs)) with false by (symmetry; apply Z.ltb_ge; exact Hq1).
+      pose proof (sumabs_nonneg qs) as Hsn.
       rewrite (Forall_bnd_fits32 (sumabs qs) qs); [|lia|apply sumabs_each].
       assert (NW : (Z.of_nat (Z.to_nat (nwrap_of h)) <=? bs) = true).
       { apply Z.leb_le. unfold nwrap_of, h. simpl. lia. }
       rewrite NW. cbn [negb orb].
-      assert (M2 : 0 <= 2 * B16) by (unfold B16; lia).
-      assert (HS : sumabs qs * (2 * B16) + 32 < 2147483648) by (unfold B16; lia).
-      destruct (resid_total (pred_qlpc (lpcqoffset_of h) qs) (2 * B16) (sumabs qs * (2 * B16) + 32))
+      assert (M2 : 0 <= Bv + Bo) by lia.
+      assert (HS : sumabs qs * (Bv + Bo) + 32 < 2147483648) by nia.
+      assert (Hvs' : Forall (bnd (Bv + Bo)) (map (fun x => x - co) vs)).
+      { apply Forall_map. eapply Forall_impl; [|exact Hvb]. unfold bnd in *. intros; lia. }
+      assert (Hh' : Forall (bnd (Bv + Bo)) (map (fun x => x - co) (c_hist c))).
+      { apply Forall_map. eapply Forall_impl; [|exact Hh]. unfold bnd in *. intros; lia. }
+      rewrite (Forall_bnd_fits32 (Bv + Bo) (map (fun x => x - co) vs)); [|lia|exact Hvs'].
+      rewrite (Forall_bnd_fits32 (Bv + Bo) (map (fun x => x - co) (firstn (length qs) (c_hist c)))); [|lia|].
+      2:{ apply Forall_map. apply Forall_firstn. eapply Forall_impl; [|exact Hh]. unfold bnd in *. intros; lia. }
+      cbn [negb orb].
+      destruct (resid_total (pred_qlpc (lpcqoffset_of h) qs) (Bv + Bo) (sumabs qs * (Bv + Bo) + 32))
         with (vs := map (fun x => x - co) vs) (buf := map (fun x => x - co) (c_hist c)) as (rs & Er & Br).
       { intros buf Hb. now apply pred_qlpc_total. }
-      { apply Forall_map. eapply Forall_impl; [|exact Hvb]. unfold bnd in *. intros; lia. }
-      { apply Forall_map. eapply Forall_impl; [|exact Hh]. unfold bnd in *. intros; lia. }
-      rewrite Er. rewrite (Forall_bnd_fits32 (2 * B16 + (sumabs qs * (2 * B16) + 32)) rs);
-        [eexists; reflexivity| |exact Br]. unfold B16 in *. lia. }
+      { exact Hvs'. }
+      { exact Hh'. }
+      rewrite Er. rewrite (Forall_bnd_fits32 (Bv + Bo + (sumabs qs * (Bv + Bo) + 32)) rs);
+        [eexists; reflexivity| |exact Br]. nia. }
   destruct CODE as (code & CODE).
   exists code. eexists. split.
-  - unfold enc_block. fold h. rewrite Ic, Hc, Ib, Is.
+  - unfold enc_block. rewrite Ic, Hc, Ib, Is.
     replace (Z.of_nat (length smp) =? bs) with true by (symmetry; apply Z.eqb_eq; exact Hlen).
     replace (resn <? 0) with false by (symmetry; apply Z.ltb_ge; lia).
-    cbn [negb orb]. fold h in Hun, Hfix. unfold h at 1 2. cbn [h_ftype hdr_of].
-    rewrite Hun, Hfix, list_eqb_refl, Hvf. cbn [negb orb]. cbv zeta. fold co.
+    cbn [negb orb]. unfold h at 1 2. cbn [h_ftype hdr_of].
+    rewrite Hun, Hfix, list_eqb_refl, Hvf. cbn [negb orb]. cbv zeta. fold h. fold co.
     rewrite CODE, Hm. reflexivity.
   - assert (N1 : Z.of_nat (next_chan p chan) < p_nchan p).
     { unfold next_chan. destruct (Z.of_nat chan =? p_nchan p - 1) eqn:E; [lia|].
@@ -379,45 +404,74 @@ Proof.
       apply Forall_firstn. apply Forall_app. split; [now apply Forall_rev|exact Hh].
 Qed.
 
-Lemma enc_items_total p : forall its es bs shift chan,
-  mem (p_ftype p) g_au_types = false ->
-  inv p bs shift chan es -> 0 <= shift < 32 -> 0 < bs ->
-  valid_items p bs shift chan its ->
-  exists b es', enc_items (hdr_of p) es its = Some (b, es').
+Lemma enc_items_total : forall its es bs shift chan,
+  inv bs shift chan es -> 0 <= shift < SH -> 0 < bs ->
+  gvalid_items sok zok Q SH p bs shift chan its ->
+  exists b es', enc_items h es its = Some (b, es').
 Proof.
-  induction its as [|it its IH]; intros es bs shift chan Hau I Hs Hbs V.
+  induction its as [|it its IH]; intros es bs shift chan I Hs Hbs V.
   - simpl. eauto.
   - destruct it as [n|s|pr resn smp]; simpl in V.
     + destruct V as (Vc & Vn & V).
       pose proof I as (Ib & Is & Ic & Icn & Il & Ich).
-      assert (E : enc_item (hdr_of p) es (IBlockSize n)
+      assert (E : enc_item h es (IBlockSize n)
                   = Some (uvar_put c_FNSIZE c_FN_BLOCKSIZE ++ ulong_put n,
                           mkE n (e_shift es) (e_chan es) (e_chans es))).
       { simpl. replace (0 <? n) with true by (symmetry; apply Z.ltb_lt; lia).
         replace (n <=? p_bs p) with true by (symmetry; apply Z.leb_le; lia).
         rewrite Ic, Vc. reflexivity. }
-      assert (I' : inv p n shift chan (mkE n (e_shift es) (e_chan es) (e_chans es))).
+      assert (I' : inv n shift chan (mkE n (e_shift es) (e_chan es) (e_chans es))).
       { unfold inv. cbn [e_bs e_shift e_chan e_chans].
         exact (conj eq_refl (conj Is (conj Ic (conj Icn (conj Il Ich))))). }
-      destruct (IH _ n shift chan Hau I' Hs ltac:(lia) V) as (b & es' & E').
+      destruct (IH _ n shift chan I' Hs ltac:(lia) V) as (b & es' & E').
       cbn [enc_items]. rewrite E, E'. eauto.
     + destruct V as (Vs & V).
       pose proof I as (Ib & Is & Ic & Icn & Il & Ich).
-      assert (E : enc_item (hdr_of p) es (IBitShift s)
+      assert (E : enc_item h es (IBitShift s)
                   = Some (uvar_put c_FNSIZE c_FN_BITSHIFT ++ uvar_put c_BITSHIFTSIZE s,
                           mkE (e_bs es) s (e_chan es) (e_chans es))).
       { simpl. replace (0 <=? s) with true by (symmetry; apply Z.leb_le; lia). reflexivity. }
-      assert (I' : inv p bs s chan (mkE (e_bs es) s (e_chan es) (e_chans es))).
+      assert (I' : inv bs s chan (mkE (e_bs es) s (e_chan es) (e_chans es))).
       { unfold inv. cbn [e_bs e_shift e_chan e_chans].
         exact (conj Ib (conj eq_refl (conj Ic (conj Icn (conj Il Ich))))). }
-      destruct (IH _ bs s chan Hau I' Vs Hbs V) as (b & es' & E').
+      destruct (IH _ bs s chan I' Vs Hbs V) as (b & es' & E').
       cbn [enc_items]. rewrite E, E'. eauto.
     + destruct V as (Vl & Vr & Vs & Vp & V).
-      destruct (enc_block_total p es bs shift chan pr resn smp Hau I Hs Hbs Vl Vr Vs Vp)
+      destruct (enc_block_total es bs shift chan pr resn smp I Hs Hbs Vl Vr Vs Vp)
         as (code & es1 & E & I1).
-      destruct (IH es1 bs shift (next_chan p chan) Hau I1 Hs Hbs V) as (b & es' & E').
+      destruct (IH es1 bs shift (next_chan p chan) I1 Hs Hbs V) as (b & es' & E').
       cbn [enc_items enc_item]. rewrite E, E'. eauto.
 Qed.
+
+Lemma init_inv mean :
+  valid_params p = true -> bnd Bo mean -> inv (p_bs p) 0 O (init_estate p mean).
+Proof.
+  intros V Hm. destruct (valid_params_inv p V) as (_ & _ & _ & C1 & _).
+  unfold inv, init_estate. cbn [e_bs e_shift e_chan e_chans].
+  refine (conj eq_refl (conj eq_refl (conj eq_refl (conj _ (conj _ _))))).
+  - simpl. lia.
+  - rewrite repeat_length. lia.
+  - apply Forall_repeat. split; cbn [init_chan c_hist c_off].
+    + apply Forall_repeat. unfold bnd. lia.
+    + now apply Forall_repeat.
+Qed.
+
+Lemma encode_total_gen pad its mean :
+  valid_params p = true -> 0 < SH ->
+  mean_init_of g_mean_init (p_ftype p) = Some mean -> bnd Bo mean ->
+  gvalid_items sok zok Q SH p (p_bs p) 0 O its ->
+  exists bytes, shn_encode pad p its = Some bytes.
+Proof.
+  intros V HS0 M Bm VI. destruct (valid_params_inv p V) as (_ & F0 & Fb & _ & B1 & _).
+  destruct (enc_items_total its (init_estate p mean) (p_bs p) 0 O (init_inv mean V Bm))
+    as (b & es' & E); try lia; auto.
+  unfold shn_encode, encode_bits. rewrite V, M. cbn [negb]. cbv zeta. fold h. rewrite E. eauto.
+Qed.
+
+End Gen.
+
+(* ------------------------------------------------------------------ *)
+(** * 16-bit (and narrower) samples *)
 
 Lemma mean_init_small ftype :
   0 <= ftype -> (g_ftype_bound <=? ftype) = false ->
@@ -431,17 +485,14 @@ Proof.
   subst. eexists; split; [reflexivity|lia].
 Qed.
 
-Lemma init_inv p mean :
-  valid_params p = true -> bnd B16 mean -> inv p (p_bs p) 0 O (init_estate p mean).
+Lemma pcm_X shift : 0 <= shift < 32 ->
+  0 <= B16 / 2 ^ shift <= B16 /\ B16 / 2 ^ shift * 2 ^ shift <= B16.
 Proof.
-  intros V Hm. destruct (valid_params_inv p V) as (_ & _ & _ & C1 & _).
-  unfold inv, init_estate. cbn [e_bs e_shift e_chan e_chans].
-  refine (conj eq_refl (conj eq_refl (conj eq_refl (conj _ (conj _ _))))).
-  - simpl. lia.
-  - rewrite repeat_length. lia.
-  - apply Forall_repeat. split; cbn [init_chan c_hist c_off].
-    + apply Forall_repeat. unfold bnd, B16. lia.
-    + now apply Forall_repeat.
+  intros Hs. assert (P : 0 < 2 ^ shift) by (apply Z.pow_pos_nonneg; lia).
+  split; [split|].
+  - apply Z.div_pos; unfold B16; lia.
+  - apply Z.div_le_upper_bound; [lia|]. unfold B16. nia.
+  - pose proof (Z.mul_div_le B16 (2 ^ shift) P). lia.
 Qed.
 
 (* every valid script is accepted: the round-trip theorem is about all of them *)
@@ -450,11 +501,14 @@ Lemma encode_total_l pad p its :
   valid_items p (p_bs p) 0 O its ->
   exists bytes, shn_encode pad p its = Some bytes.
 Proof.
-  intros V Hau VI. destruct (valid_params_inv p V) as (_ & F0 & Fb & _ & B1 & _).
+  intros V Hau VI. destruct (valid_params_inv p V) as (_ & F0 & Fb & _).
   destruct (mean_init_small _ F0 Fb) as (mean & M & Bm).
-  destruct (enc_items_total p its (init_estate p mean) (p_bs p) 0 O Hau (init_inv p mean V Bm))
-    as (b & es' & E); try lia; auto.
-  unfold shn_encode, encode_bits. rewrite V, M. cbn [negb]. cbv zeta. rewrite E. eauto.
+  apply (encode_total_gen B16 B16 16384 32 (fun shift => B16 / 2 ^ shift)
+           sample_ok (fun _ s => s = 0) p) with (mean := mean); auto; unfold B16; try lia.
+  - exact pcm_X.
+  - intros shift s Hs Hok. exists (s / 2 ^ shift). now apply sample_unfix.
+  - intros shift s ->. unfold unfix_sample. rewrite Hau.
+    rewrite Zmod_0_l. cbn [Z.eqb]. now rewrite Zdiv_0_l.
 Qed.
 
 Lemma decode_encode_valid_l dt pad p its :
@@ -464,6 +518,35 @@ Lemma decode_encode_valid_l dt pad p its :
                 /\ shn_decode dt bytes = Ok (expected dt p its).
 Proof.
   intros V Hau VI. destruct (encode_total_l pad p its V Hau VI) as (bytes & E).
+  exists bytes. split; [exact E|]. eapply decode_encode_l; eauto.
+Qed.
+
+(* ------------------------------------------------------------------ *)
+(** * mu-law codes (TYPE_AU1, TYPE_AU2) *)
+
+Lemma encode_total_au_l pad p its :
+  valid_params p = true -> p_ftype p = c_TYPE_AU1 \/ p_ftype p = c_TYPE_AU2 ->
+  valid_items_au p (p_bs p) 0 O its ->
+  exists bytes, shn_encode pad p its = Some bytes.
+Proof.
+  intros V Hau VI.
+  assert (M : mean_init_of g_mean_init (p_ftype p) = Some 0) by (destruct Hau as [-> | ->]; reflexivity).
+  apply (encode_total_gen 129 528384 2048 13 (fun _ => 129)
+           (fun _ s => 0 <= s < 256) (fun shift s => unfix_sample (p_ftype p) shift s = Some 0) p)
+    with (mean := 0); auto; unfold bnd; try lia.
+  - intros shift Hs. split; [lia|].
+    assert (2 ^ shift <= 2 ^ 12) by (apply Z.pow_le_mono_r; lia). change (2 ^ 12) with 4096 in H. lia.
+  - intros shift s Hs Hok. destruct (au_unfix_total_l (p_ftype p) shift s Hau Hs Hok) as (v & U & F & Bn).
+    exists v. repeat split; auto; lia.
+Qed.
+
+Lemma decode_encode_valid_au_l dt pad p its :
+  valid_params p = true -> p_ftype p = c_TYPE_AU1 \/ p_ftype p = c_TYPE_AU2 ->
+  valid_items_au p (p_bs p) 0 O its ->
+  exists bytes, shn_encode pad p its = Some bytes
+                /\ shn_decode dt bytes = Ok (expected dt p its).
+Proof.
+  intros V Hau VI. destruct (encode_total_au_l pad p its V Hau VI) as (bytes & E).
   exists bytes. split; [exact E|]. eapply decode_encode_l; eauto.
 Qed.
 
@@ -479,6 +562,19 @@ Example valid_example :
      = [100; 5; 120; -6; 130; 7; 90; -8; 50; 2; 60; 4; -70; 6; 80; -8; 0; 1000; 0; -1000].
 Proof.
   cbv zeta. split; [reflexivity|]. split; [|reflexivity].
-  unfold valid_items, pred_ok, sample_ok, bnd, B16, next_chan, sumabs; simpl.
+  unfold valid_items, gvalid_items, gpred_ok, sample_ok, bnd, B16, next_chan, sumabs; simpl.
+  repeat split; try lia; repeat constructor; try lia; try reflexivity.
+Qed.
+
+(* mu-law: one channel of AU2 bytes at bit shift 2, then a block of the byte whose code is 0 *)
+Example valid_au_example :
+  let p := mkParams 2 c_TYPE_AU2 1 3 2 4 [] in
+  let its := [IBitShift 2; IBlock (PDiff 1) 1 [200; 17; 255]; IBlock (PQlpc [30; -3]) 2 [0; 127; 128];
+              IBlock PZero 0 [255; 255; 255]] in
+  valid_params p = true /\ valid_items_au p (p_bs p) 0 O its
+  /\ shn_encode false p its <> None.
+Proof.
+  cbv zeta. split; [reflexivity|]. split; [|vm_compute; discriminate].
+  unfold valid_items_au, gvalid_items, gpred_ok, next_chan, sumabs; simpl.
   repeat split; try lia; repeat constructor; try lia; try reflexivity.
 Qed.
